@@ -268,6 +268,8 @@ def ops_for(T, names, model_idx, profile, sigma, foreign=None):
                 ('Px', 'old-missing', f), ('Px', 'new-bad')]
         for a in sigma[:1]:
             ops.append(('Fx', a, 99))
+            ops.append(('Fx', a, mult[a]))         # exactly one past the last same-name leaf
+            ops.append(('Fx', a, -mult[a] - 1))
     if 'At' in kinds:
         ops += failing_attr_ops(T)
     if 'Sc' in kinds:
